@@ -748,6 +748,67 @@ func c06RefOf(n *c06Node) *c06Ref {
 	return r
 }
 
+// c06RefAccept: is the span object well-formed by the Zipkin v2 rules the writer enforces (ids hex and present,
+// integer times as number or string, name a string, endpoints objects with string service names, tags an object)
+func c06RefAccept(n *c06Node) bool {
+	if n == nil || n.Kind != 'o' {
+		return false
+	}
+	hexOK := func(v *c06Node, want int) bool {
+		return v.Kind == 's' && len(v.Str) > 0 && c06PadHex(v.Str, want) != nil
+	}
+	timeOK := func(v *c06Node) bool {
+		switch v.Kind {
+		case 's':
+			_, err := strconv.ParseInt(v.Str, 10, 64)
+			return err == nil
+		case 'n':
+			r := strings.TrimPrefix(v.Raw, "-")
+			if r == "" || (len(r) > 1 && r[0] == '0') || strings.Trim(r, "0123456789") != "" {
+				return false
+			}
+			_, err := strconv.ParseInt(v.Raw, 10, 64)
+			return err == nil
+		}
+		return false
+	}
+	for i, k := range n.Keys {
+		v := n.Vals[i]
+		switch k {
+		case "traceId":
+			if !hexOK(v, 32) {
+				return false
+			}
+		case "id", "parentId":
+			if !hexOK(v, 16) {
+				return false
+			}
+		case "timestamp", "duration":
+			if !timeOK(v) {
+				return false
+			}
+		case "name":
+			if v.Kind != 's' {
+				return false
+			}
+		case "localEndpoint", "remoteEndpoint":
+			if v.Kind != 'o' {
+				return false
+			}
+			for j, ek := range v.Keys {
+				if ek == "serviceName" && v.Vals[j].Kind != 's' {
+					return false
+				}
+			}
+		case "tags":
+			if v.Kind != 'o' {
+				return false
+			}
+		}
+	}
+	return n.count("traceId") > 0 && n.count("id") > 0
+}
+
 // ---------------------------------------------------------------- JSON view
 
 func c06IsNaN(bits uint64) bool { return bits>>52&0x7ff == 0x7ff && bits&(1<<52-1) != 0 }
@@ -1056,8 +1117,26 @@ func c06OracleTree(r *h.Result, c *c06TCase, rd *c06ReadResult) {
 		}
 		return
 	}
+	// the members themselves, by the oracle's own reading of the Zipkin rules on the tree the OTHER library parsed
+	wellFormed := true
+	for _, t := range c.texts {
+		src := t.R
+		if src == nil {
+			src = t.W
+		}
+		if !c06RefAccept(src) {
+			wellFormed = false
+		}
+	}
+	if !wellFormed {
+		if !w.Rej {
+			V(nil, "C06/zipkin-bad-span-stored", fmt.Sprintf("%s: a body with an ill-formed span (missing/empty/non-hex id, ill-typed member) produced storable rows", fr))
+		}
+		return
+	}
 	if w.Rej {
-		return // refused for a member the typed oracle of the old stream judges (ill-typed ids, times …)
+		V(nil, "C06/zipkin-accepted-request-rejected", fmt.Sprintf("%s: a body of well-formed span objects is refused: %s", fr, w.Err))
+		return
 	}
 	if len(w.Rows) != len(c.texts) {
 		V(nil, "C06/zipkin-row-count", fmt.Sprintf("%s: %d span texts produced %d trace rows", fr, len(c.texts), len(w.Rows)))
@@ -1347,6 +1426,13 @@ func c06RunOtlpView(r *h.Result, rng *h.Rng, n int) error {
 		toks := strings.Join(c06TracesTokens(td2), " ")
 		c := &c06OtlpCase{td: td2, body: body, op: "c06otlpview " + toks}
 		c.w = c06Write(unmarshal.UnmarshalOTLPV2, body)
+		if !c06OtlpAccepted(c06FlatSpans(td2)) {
+			if !c.w.Rej {
+				r.Violate("C06/otlp-bad-ids-stored", "OTLP request with a service-name attribute without a value produced storable rows", c.replay("accepted"))
+			}
+			r.Count("otlp-view:refused-valueless-service-name")
+			continue
+		}
 		if c.w.Rej {
 			r.Violate("C06/otlp-accepted-request-rejected", "OTLP request whose spans all have 16/8-byte ids is rejected: "+c.w.Err, c.replay("rejected"))
 			continue
